@@ -82,7 +82,7 @@ def tokens_of(spec):
         toks = []
         for b in s["blocks"]:
             f = b.get("f") if (b["k"] == "c" and spec.get("functions", True)) else None
-            toks.append({"t": "blk", "b": b["n"], "k": b["k"], "f": f, "al": b.get("al")})
+            toks.append({"t": "blk", "b": b["n"], "k": b["k"], "f": f, "al": b.get("al"), "e": bool(b.get("e")) and f is not None})
             for L in start_labels(b):
                 toks.append({"t": "lab", "n": L, "own": b["n"], "end": False})
             fl = func_label(b)
@@ -108,7 +108,7 @@ def tokens_of(spec):
                     a = {}
                     for o in range(sz):
                         if str(off + o) in ann:
-                            a[o] = dict(ann[str(off + o)])
+                            a[o] = {kk: vv for kk, vv in ann[str(off + o)].items() if kk != "key"}
                     toks.append({"t": "ins", "ins": ins, "uid": ("orig", b["n"], k), "f": f, "bk": b["k"], "ann": a, "blk": b["n"]})
                     off += sz
             for L in b.get("le", ()):
@@ -147,6 +147,9 @@ def patch_tokens(isa_, patch, mid, func, bk, suffix=None):
             toks.append({"t": "ins", "ins": pt, "uid": ("patch", mid, j), "f": func if kind == "c" else None, "bk": kind if bk == "c" else "d", "ann": {}, "blk": None, "patch": mid})
             j += 1
     return toks
+
+
+REQUIRED_CFI = (".cfi_startproc", ".cfi_endproc", ".cfi_remember_state", ".cfi_restore_state")
 
 
 class Refusal(Exception):
@@ -221,7 +224,12 @@ def apply_model(spec, mods):
                 if t["t"] == "cfi" and t["b"] == m["b"]:
                     inside = k < t["k"] < k + n or (t["k"] == k + n and t["part"] == "keep") or (t["k"] == k and t["part"] == "move")
                     if inside:
-                        t["dropped_by"] = mid
+                        keep_d = [d for d in t["d"] if d[0] in REQUIRED_CFI]
+                        if keep_d:
+                            t["d"] = keep_d  # never dropped (statement); they move to a neighbour
+                            t["rehomed_by"] = mid
+                        else:
+                            t["dropped_by"] = mid
                 if t["t"] == "slot" and t["b"] == m["b"] and t["k"] == k + n:
                     break
         deleted_count[m["b"]] += n
@@ -275,6 +283,8 @@ class Listing:
         self.cfi = {}  # (sec,pos) -> [directive tuples]
         self.problems = []
         self.align = {}  # (sec,pos) -> alignment
+        self.func_entries = {}  # function -> {(sec,pos)} entry block positions
+        self.func_names = set()
 
 
 def flatten(spec, secs, proxied):
@@ -285,6 +295,7 @@ def flatten(spec, secs, proxied):
     for sname, toks in secs.items():
         pos = 0
         data = b""
+        in_proc = False
         for ti, t in enumerate(toks):
             if t.get("dead") or t.get("proxied"):
                 continue
@@ -296,17 +307,60 @@ def flatten(spec, secs, proxied):
                 L.align[(sname, pos)] = t["al"]
             elif t["t"] == "cfi":
                 if t.get("dropped_by") is None:
+                    if t.get("part") == "patch" and not in_proc:
+                        continue  # a patch outside any CFI procedure cannot carry directives
                     L.cfi.setdefault((sname, pos), []).extend(t["d"])
+                    for d in t["d"]:
+                        if d[0] == ".cfi_startproc":
+                            in_proc = True
+                        elif d[0] == ".cfi_endproc":
+                            in_proc = False
             elif t["t"] == "ins":
                 b, sx = isa_.enc(t["ins"])
                 L.insns[(sname, pos)] = {"ins": t["ins"], "size": len(b), "f": t["f"], "bk": t["bk"], "uid": t["uid"], "tok": ti}
                 if sx:
-                    L.symexprs[(sname, pos + sx[0])] = (sx[2], 0, sx[1])
+                    attrs = tuple(sx[4]) if len(sx) > 4 else ()
+                    if not attrs and spec.get("pie") and spec["target"].endswith("-elf") and spec["target"][:3] in ("x64", "ia3") \
+                            and t["ins"][0] in ("jmp", "jcc", "call") and t["uid"][0] == "patch" and sx[2] in ext:
+                        attrs = ("PLT",)  # what an assembler infers for a branch to an external symbol under PIE
+                    L.symexprs[(sname, pos + sx[0])] = (sx[2], sx[3] if len(sx) > 3 else 0, sx[1], attrs)
                 for o, a in t.get("ann", {}).items():
                     L.ann[(sname, pos + o)] = a
                 data += b
                 pos += len(b)
         L.bytes[sname] = data
+        # ---- function entries: an entry block that lost all its bytes hands the role to the next
+        #      block only if that is code of the same function (never when deleted to a proxy)
+        regions = []
+        p2 = 0
+        for t in toks:
+            if t["t"] == "blk":
+                regions.append({"blk": t, "pos": p2, "live": 0, "proxy": False})
+            elif t["t"] == "ins" and regions:
+                if t.get("dead"):
+                    if t["dead"] == "proxy" and t["uid"][0] == "orig":
+                        regions[-1]["proxy"] = True
+                else:
+                    regions[-1]["live"] += 1
+                    p2 += len(isa_.enc(t["ins"])[0])
+        for i, r in enumerate(regions):
+            f = r["blk"]["f"]
+            if f and r["live"]:
+                L.func_names.add(f)
+            if not (r["blk"].get("e") and f):
+                continue
+            j = i
+            while j < len(regions) and not regions[j]["live"]:
+                if regions[j]["proxy"]:
+                    j = None
+                    break
+                nxt = regions[j + 1] if j + 1 < len(regions) else None
+                if nxt is None or nxt["blk"]["k"] != "c" or nxt["blk"]["f"] != f:
+                    j = None
+                    break
+                j += 1
+            if j is not None and j < len(regions):
+                L.func_entries.setdefault(f, set()).add((sname, regions[j]["pos"]))
     for n in proxied:
         L.labels[n] = "proxy"
     for n in ext:
@@ -415,7 +469,7 @@ def build(spec):
                 ins = T(ins)
                 bs, sx = isa_.enc(ins)
                 if sx:
-                    pending_sx.append((cur, cur.size + len(data) + sx[0], sx[1], sx[2]))
+                    pending_sx.append((cur, cur.size + len(data) + sx[0], sx[1], sx[2], sx[3] if len(sx) > 3 else 0, sx[4] if len(sx) > 4 else ()))
                 data += bs
             cls = gtirb.CodeBlock if b["k"] == "c" else gtirb.DataBlock
             blk = cls(offset=cur.size, size=len(data))
@@ -432,13 +486,15 @@ def build(spec):
             if b.get("al"):
                 m.aux_data["alignment"].data[blk] = b["al"]
             for off, a in (b.get("ann") or {}).items():
+                # "key": "bi" -> keyed by byte interval instead of by block
+                el, base_off = (cur, blk.offset) if a.get("key") == "bi" else (blk, 0)
                 if "comment" in a:
-                    m.aux_data["comments"].data[gtirb.Offset(blk, int(off))] = a["comment"]
+                    m.aux_data["comments"].data[gtirb.Offset(el, base_off + int(off))] = a["comment"]
                 if "padding" in a:
-                    m.aux_data["padding"].data[gtirb.Offset(blk, int(off))] = a["padding"]
+                    m.aux_data["padding"].data[gtirb.Offset(el, base_off + int(off))] = a["padding"]
         w.intervals[s["name"]] = ivs
-    for bi, off, size, lab in pending_sx:
-        bi.symbolic_expressions[off] = gtirb.SymAddrConst(0, w.syms[lab])
+    for bi, off, size, lab, addend, attrs in pending_sx:
+        bi.symbolic_expressions[off] = gtirb.SymAddrConst(addend, w.syms[lab], {getattr(gtirb.SymbolicExpression.Attribute, a) for a in attrs})
         m.aux_data["symbolicExpressionSizes"].data[gtirb.Offset(bi, off)] = size
     # ---- functions
     if spec.get("functions", True):
@@ -462,7 +518,6 @@ def build(spec):
             off = sum(isz[: int(k)])
             lst = []
             for d in ds:
-                sym = w.syms[d[2]] if len(d) > 2 and d[2] else gtirb.Symbol("__null")  # placeholder replaced below
                 lst.append((d[0], list(d[1]), w.syms[d[2]] if len(d) > 2 and d[2] else NULL_UUID))
             m.aux_data["cfiDirectives"].data[gtirb.Offset(w.blocks[b["n"]], off)] = lst
     # ---- CFG from the reference control-flow model of the unedited listing
@@ -653,6 +708,35 @@ def observe(w):
                 L.problems.append({"kind": "block-in-two-functions"})
             func_of[b] = nm
     L.func_of_block = func_of
+    # ---- function tables: structure + entries
+    fentries = m.aux_data["functionEntries"].data if "functionEntries" in m.aux_data else {}
+    L.func_entries = {}
+    L.func_names = set()
+    if set(fblocks) != set(fentries) or set(fblocks) != set(fnames):
+        L.problems.append({"kind": "functable-key-sets-differ", "r_blocks_only": len(set(fblocks) - set(fentries) - set(fnames)),
+                           "r_detail": "blocks=%d entries=%d names=%d" % (len(fblocks), len(fentries), len(fnames))})
+    for u in set(fblocks) | set(fentries):
+        nm = fnames[u].name if u in fnames else "?" + str(u)
+        if u in fnames and fnames[u] not in m.symbols:
+            L.problems.append({"kind": "functable-name-symbol-not-in-module", "r_func": nm})
+        short = nm[2:] if nm.startswith("F_") else nm
+        bs = fblocks.get(u, set())
+        if any(b.size for b in bs if isinstance(b, gtirb.ByteBlock)):
+            L.func_names.add(short)
+        else:
+            # only kept zero-sized blocks (documented leftovers) - the function owns no code any more
+            L.func_hollow = getattr(L, "func_hollow", set()) | {short}
+        es = fentries.get(u, set())
+        if not bs:
+            L.problems.append({"kind": "functable-function-without-blocks", "r_func": short})
+        if not es <= bs:
+            L.problems.append({"kind": "functable-entries-not-subset-of-blocks", "r_func": short})
+        for b in bs | es:
+            if not isinstance(b, gtirb.CodeBlock):
+                L.problems.append({"kind": "functable-non-code-block", "r_func": short})
+            elif b.module is not m or b.byte_interval is None:
+                L.problems.append({"kind": "functable-block-not-in-module", "r_func": short})
+        L.func_entries[short] = {bpos(b) for b in es if isinstance(b, gtirb.ByteBlock) and bpos(b) is not None}
     # ---- instructions + edges
     L.zero_blocks = []
     for blk in sorted(m.byte_blocks, key=lambda b: (str(blockpos[b]), b.size)):
